@@ -464,7 +464,13 @@ pub fn small_session_strategy(o: SmallOpts) -> BoxedStrategy<SessSpec> {
                 ob.md5 = md5;
                 ob.location = format!("file:///s{}/{}", idx, seed);
                 if cenc != 0 {
-                    ob.content.kind = ContentKind::Random;
+                    // incompressible, compressible and trivially compressible content (the transfer length
+                    // shrinks accordingly; the inflater's trailing output only exists for the latter two)
+                    ob.content.kind = match seed % 3 {
+                        0 => ContentKind::Random,
+                        1 => ContentKind::Text,
+                        _ => ContentKind::Zeros,
+                    };
                 }
                 ob
             })
